@@ -3,8 +3,18 @@ from shell import replayers
 
 ID = "C08"
 LEVEL = "other"
-FUNCTIONS = ["PortfolioSpace.null_action", "PortfolioSpace.make_rebalancing_request"]
+FUNCTIONS = ["PortfolioSpace.null_action", "PortfolioSpace.make_rebalancing_request", "TradingEnv.step"]
+from shell import c08
+SHELL = [c08.timing]
 REPLAYERS = [("PortfolioSpace.null_action::ensures::in_space", replayers.null_action_in_space)]
 FOLLOW_ON = {"PortfolioSpace.null_action::ensures::is_action_zero": "PortfolioSpace.null_action::ensures::in_space"}
-LEVEL_TEXT = ("Deductive kernel + bounded shell (reported separately).")
+LEVEL_TEXT = ("Deductive kernel: TradingEnv.step is executed symbolically with a delay line of symbolic length d: the action handed to "
+              "make_rebalancing_request is the one at the back of the queue (the submitted one when d = 0), the queue is shifted by exactly "
+              "one with the submitted action at the front and no eviction (len = d, maxlen = d+1 invariant), latent events precede and "
+              "non-latent events follow the execution; null_action is proved to be in the space (D10 fixed). Bounded shell: FIFO with "
+              "distinct per-step actions for d = 0..3, quotes placed at and around the latency boundary, malformed actions. The "
+              "partition-slot obligation of _create_partitions is reported as not yet decided deductively.")
 EXPLANATION = LEVEL_TEXT
+NOT_DEDUCTIVE = ["latent iff stamped within `latency` of the previous timestep (Transmitter._create_partitions loop): bounded shell (C04/C08)",
+                 "reset establishes the delay line of d null actions: bounded shell"]
+EXTRA_ASSUMPTIONS = ["ASSUMED contracts: TradingEnv._process_*_events, notify, IState.__call__, TrackRecord._checkpoint/__getitem__"]
